@@ -8,8 +8,11 @@
  * The line protocol is specified in corpus/C03/PROTOCOL.txt (lean/Driver/C03.lean parses it):
  *   C <kind h|s> <interval> <tbegin|-> <tend|-> <typeFilter> <stateFilter> <hasPeriod> <nusers> {<attach> <utf> <usf> <uhasPeriod>}*
  *   S/V/D/A/L/R/K/G/E/P/Y/W/U/F ...   environment operations, echoed as "<op> |"
- *   N <typebit> <dt> | <20 env ints> ; <users> ; <events> ; <cmds> ; <npu> <lns> <next> <noMore> <number> <sup>
+ *   O <interval> <tbegin|-> <tend|-> <typeFilter> <stateFilter> <hasPeriod> {<attach>}*   further notification object (right after C)
+ *   N <typebit> <dt> | <21 env ints> ; <users> ; <events> ; <cmds> ; <npu> <lns> <next> <noMore> <number> <sup> <stash>
  *   T <dt> <direct>  | (same observation)
+ *   X <state> <dt> / Z <dt>   real ProcessCheckResult / FireSuppressedNotifications; each request the code raises prints "q <typebit> | obs"
+ *   "+ <k> | obs" = the preceding operation as seen by notification object k; "z | numbers" = notification_number resync
  */
 #include "common.hpp"
 #include "base/function.hpp"
@@ -37,6 +40,8 @@ using namespace vh;
 namespace vh {
 typedef void NthFn();
 VH_ROB_MEMBER(NthTag, NotificationComponent, NthFn, NotificationTimerHandler)
+/* ApiListener::m_UpdatedObjectAuthority: false during the cold-start phase, in which requests are stashed */
+VH_ROB_STATIC(UoaTag, std::atomic<bool> *type, ApiListener, m_UpdatedObjectAuthority)
 }
 
 static const char *const kCmdName = "c03-cmd";
@@ -50,15 +55,19 @@ static void Die(const std::string& msg, int code = 2)
 
 /* ---- recorded command executions (thread pool threads) ---- */
 static std::mutex l_CmdMutex;
-static std::vector<std::pair<int, std::string>> l_Cmds;
+struct CmdRec { int type; std::string user; std::string notif; };
+static std::vector<CmdRec> l_Cmds;
 static std::atomic<int> l_CmdCount{0};
 
 static Value CmdExecute(const std::vector<Value>& args)
 {
 	/* {notification, user, cr, type, author, comment, resolvedMacros, useResolvedMacros} */
 	int type = -1;
-	std::string name = "?";
+	std::string name = "?", nname = "?";
 	if (args.size() >= 4) {
+		Notification::Ptr nobj = args[0];
+		if (nobj)
+			nname = nobj->GetName().GetData();
 		User::Ptr user = args[1];
 		type = (int)(double)args[3];
 		if (user)
@@ -66,7 +75,7 @@ static Value CmdExecute(const std::vector<Value>& args)
 	}
 	{
 		std::unique_lock<std::mutex> lock(l_CmdMutex);
-		l_Cmds.emplace_back(type, name);
+		l_Cmds.push_back(CmdRec{ type, name, nname });
 	}
 	l_CmdCount.fetch_add(1);
 	return Empty;
@@ -78,12 +87,25 @@ struct Event {
 	int passed;
 	bool clearedPending; /* pushed by the cleared-signal and not yet upgraded */
 	std::vector<int> users;
+	int force;           /* from the text the harness attached to the request ("n:<f>" / "s:<f>"), -1 = no label */
 };
 
 struct UserW {
 	User::Ptr user;
 	TimePeriod::Ptr period;
-	int attach;
+};
+
+struct EnvV { long long v[20]; };
+
+/* one notification object of the checkable, with its own period, its own two user groups and its own observation */
+struct NotifW {
+	Notification::Ptr notif;
+	TimePeriod::Ptr period;
+	UserGroup::Ptr group[2];
+	std::vector<Event> events;
+	EnvV env;
+	std::string users;
+	bool hadP{false};
 };
 
 struct World {
@@ -94,15 +116,15 @@ struct World {
 	Checkable::Ptr obj;
 	Dependency::Ptr dep;
 	Downtime::Ptr dt;
-	Notification::Ptr notif;
-	TimePeriod::Ptr period;
-	UserGroup::Ptr group;
+	std::vector<NotifW> ns;
 	std::vector<UserW> users;
 	std::map<std::string, int> idByName;
+	std::map<std::string, int> notifByName;
 };
 
 static World l_W;
-static std::vector<Event> l_Events;
+static bool l_InX = false;          /* inside an X / Z operation: requests print "q" lines */
+static std::string l_NText;         /* text of the running N operation */
 static NotificationComponent::Ptr l_NC;
 static long long l_Now = 100000;
 static int l_CaseNo = 0;
@@ -164,10 +186,10 @@ static void Teardown()
 	if (!l_W.obj)
 		return;
 	CheckNoStray("at teardown");
-	if (l_W.notif) {
-		l_W.obj->UnregisterNotification(l_W.notif);
-		l_W.notif->SetActive(false);
-		l_W.notif->Unregister();
+	for (auto& nw : l_W.ns) {
+		l_W.obj->UnregisterNotification(nw.notif);
+		nw.notif->SetActive(false);
+		nw.notif->Unregister();
 	}
 	RemoveDowntime();
 	if (l_W.dep) {
@@ -176,16 +198,19 @@ static void Teardown()
 		l_W.dep = nullptr;
 	}
 	for (auto& u : l_W.users) {
-		if (l_W.group)
-			l_W.group->RemoveMember(u.user);
+		for (auto& nw : l_W.ns)
+			for (int gi = 0; gi < 2; gi++)
+				nw.group[gi]->RemoveMember(u.user);
 		u.user->Unregister();
 		if (u.period)
 			u.period->Unregister();
 	}
-	if (l_W.group)
-		l_W.group->Unregister();
-	if (l_W.period)
-		l_W.period->Unregister();
+	for (auto& nw : l_W.ns) {
+		for (int gi = 0; gi < 2; gi++)
+			nw.group[gi]->Unregister();
+		if (nw.period)
+			nw.period->Unregister();
+	}
 	l_W.obj->SetActive(false);
 	if (l_W.service) {
 		l_W.service->Unregister();
@@ -199,19 +224,26 @@ static void Teardown()
 		l_W.parent->Unregister();
 	}
 	l_W = World();
-	l_Events.clear();
 }
 
-struct UserCfg { int attach, tf, sf, hasPeriod; };
+struct UserCfg { int tf, sf, hasPeriod; };
 
-struct CaseCfg {
-	char kind;
+/* one notification object: attach per user: bit 0 = in `users`, bit 1 = member of the object's group a, bit 2 = of its group b */
+struct NotifCfg {
 	long long interval;
 	bool hasBegin, hasEnd;
 	long long tbegin, tend;
 	int tf, sf, hasPeriod;
+	std::vector<int> attach;
+};
+
+struct CaseCfg {
+	char kind;
+	NotifCfg n0;
 	std::vector<UserCfg> users;
 };
+
+static void AddNotification(const NotifCfg& c);
 
 static void Setup(const CaseCfg& c)
 {
@@ -220,6 +252,7 @@ static void Setup(const CaseCfg& c)
 	l_Now += 1000000; /* far from any earlier case */
 	SetNow((double)l_Now);
 	IcingaApplication::GetInstance()->SetEnableNotifications(true);
+	get(UoaTag())->store(true);
 	std::string sfx = std::to_string(l_CaseNo);
 	l_W.isHost = c.kind == 'h';
 
@@ -272,19 +305,9 @@ static void Setup(const CaseCfg& c)
 		l_W.parent->AddReverseDependency(l_W.dep);
 	}
 
-	if (c.hasPeriod)
-		l_W.period = MakePeriod("c03-tp" + sfx + "-n");
-
-	l_W.group = new UserGroup();
-	l_W.group->SetName("c03-g" + sfx);
-	l_W.group->Register();
-
-	Array::Ptr userNames = new Array();
-	bool anyGroup = false;
 	for (size_t i = 0; i < c.users.size(); i++) {
 		const UserCfg& uc = c.users[i];
 		UserW uw;
-		uw.attach = uc.attach;
 		std::string uname = "c03-u" + sfx + "-" + std::to_string(i);
 		std::string pname;
 		if (uc.hasPeriod) {
@@ -298,27 +321,54 @@ static void Setup(const CaseCfg& c)
 		uw.user->SetStateFilter(uc.sf);
 		uw.user->SetPeriodRaw(pname);
 		uw.user->Register();
-		if (uc.attach & 1)
-			userNames->Add(String(uname));
-		if (uc.attach & 2) {
-			l_W.group->ResolveGroupMembership(uw.user, true);
-			anyGroup = true;
-		}
 		l_W.idByName[uname] = (int)i;
 		l_W.users.push_back(uw);
 	}
+	AddNotification(c.n0);
+}
+
+static void AddNotification(const NotifCfg& c)
+{
+	std::string sfx = std::to_string(l_CaseNo);
+	int k = (int)l_W.ns.size();
+	std::string ks = std::to_string(k);
+	NotifW nw;
+	if (c.hasPeriod)
+		nw.period = MakePeriod("c03-tp" + sfx + "-n" + ks);
+	for (int gi = 0; gi < 2; gi++) {
+		nw.group[gi] = new UserGroup();
+		nw.group[gi]->SetName("c03-g" + sfx + "-" + ks + (gi ? "b" : "a"));
+		nw.group[gi]->Register();
+	}
+	Array::Ptr userNames = new Array();
+	bool anyGroup[2] = { false, false };
+	for (size_t i = 0; i < l_W.users.size() && i < c.attach.size(); i++) {
+		int at = c.attach[i];
+		if (at & 1)
+			userNames->Add(l_W.users[i].user->GetName());
+		for (int gi = 0; gi < 2; gi++) {
+			if (at & (2 << gi)) {
+				nw.group[gi]->ResolveGroupMembership(l_W.users[i].user, true);
+				anyGroup[gi] = true;
+			}
+		}
+	}
 
 	Notification::Ptr n = new Notification();
-	n->SetName(l_W.obj->GetName() + "!n");
+	n->SetName(l_W.obj->GetName() + "!n" + ks);
 	SetF(n, "host_name", l_W.isHost ? l_W.obj->GetName() : l_W.parent->GetName());
 	if (!l_W.isHost)
 		SetF(n, "service_name", String("svc"));
 	SetF(n, "command", String(kCmdName));
 	n->SetInterval((double)c.interval);
-	n->SetPeriodRaw(l_W.period ? l_W.period->GetName() : String());
+	n->SetPeriodRaw(nw.period ? nw.period->GetName() : String());
 	n->SetUsersRaw(userNames);
-	if (anyGroup)
-		n->SetUserGroupsRaw(new Array({ l_W.group->GetName() }));
+	Array::Ptr groupNames = new Array();
+	for (int gi = 0; gi < 2; gi++)
+		if (anyGroup[gi])
+			groupNames->Add(nw.group[gi]->GetName());
+	if (groupNames->GetLength())
+		n->SetUserGroupsRaw(groupNames);
 	if (c.hasBegin || c.hasEnd) {
 		Dictionary::Ptr times = new Dictionary();
 		if (c.hasBegin)
@@ -335,8 +385,9 @@ static void Setup(const CaseCfg& c)
 	n->SetAuthority(true);
 	if (n->GetCheckable() != l_W.obj)
 		Die("notification did not resolve its checkable");
-	l_W.notif = n;
-	l_Events.clear();
+	nw.notif = n;
+	l_W.notifByName[n->GetName().GetData()] = k;
+	l_W.ns.push_back(nw);
 }
 
 /* ---- observation ---- */
@@ -359,12 +410,11 @@ static bool PeriodOpen(const TimePeriod::Ptr& tp)
 	return !tp || tp->IsInside((double)l_Now);
 }
 
-struct Env { long long v[19]; };
-
-static Env ReadEnv()
+static EnvV ReadEnv(int k)
 {
-	Env e;
+	EnvV e;
 	Checkable::Ptr o = l_W.obj;
+	const Notification::Ptr& nf = l_W.ns[k].notif;
 	int state = l_W.isHost ? (int)l_W.host->GetState() : (int)l_W.service->GetState();
 	int i = 0;
 	e.v[i++] = l_Now;
@@ -377,23 +427,25 @@ static Env ReadEnv()
 	e.v[i++] = o->IsAcknowledged() ? 1 : 0;
 	e.v[i++] = o->IsFlapping() ? 1 : 0;
 	e.v[i++] = (o->GetSuppressedNotifications() & NotificationProblem) ? 1 : 0;
-	e.v[i++] = PeriodOpen(l_W.notif->GetPeriod()) ? 1 : 0;
+	e.v[i++] = PeriodOpen(nf->GetPeriod()) ? 1 : 0;
 	e.v[i++] = IcingaApplication::GetInstance()->GetEnableNotifications() ? 1 : 0;
 	e.v[i++] = o->GetEnableNotifications() ? 1 : 0;
-	e.v[i++] = l_W.notif->IsPaused() ? 1 : 0;
+	e.v[i++] = nf->IsPaused() ? 1 : 0;
 	e.v[i++] = (Endpoint::GetLocalEndpoint() && l_NC->GetEnableHA()) ? 1 : 0;
 	e.v[i++] = o->IsLikelyToBeCheckedSoon() ? 1 : 0;
 	e.v[i++] = o->NotificationReasonApplies(NotificationProblem) ? 1 : 0;
 	e.v[i++] = o->NotificationReasonApplies(NotificationRecovery) ? 1 : 0;
 	e.v[i++] = o->GetForceNextNotification() ? 1 : 0;
+	e.v[i++] = ApiListener::UpdatedObjectAuthority() ? 1 : 0;
 	return e;
 }
 
-static std::string UsersStr()
+static std::string UsersStr(int k)
 {
-	/* the attached set as the real objects see it: users ∪ members of user_groups */
-	std::set<User::Ptr> all = l_W.notif->GetUsers();
-	for (const UserGroup::Ptr& ug : l_W.notif->GetUserGroups()) {
+	/* the attached set as the real objects see it: users ∪ members of user_groups (a user reachable twice counts once) */
+	const Notification::Ptr& nf = l_W.ns[k].notif;
+	std::set<User::Ptr> all = nf->GetUsers();
+	for (const UserGroup::Ptr& ug : nf->GetUserGroups()) {
 		std::set<User::Ptr> members = ug->GetMembers();
 		all.insert(members.begin(), members.end());
 	}
@@ -414,34 +466,49 @@ static std::string UsersStr()
 	return s;
 }
 
+static bool AnyEvents()
+{
+	for (auto& nw : l_W.ns)
+		if (!nw.events.empty())
+			return true;
+	return false;
+}
+
+/* before a call into the code under test: nothing pending, snapshot what the code is about to read */
 static void BeginOp(const char *where)
 {
 	CheckNoStray(where);
-	l_Events.clear();
+	for (auto& nw : l_W.ns)
+		nw.events.clear();
 }
 
-static void FinishObserved(const std::string& opText, const Env& env, int fired, const std::string& users, bool isT, bool hadP)
+static void Snapshot()
 {
-	/* group 3: events */
-	std::string ev;
-	int expected = 0;
-	bool sawProblem = false;
-	for (size_t i = 0; i < l_Events.size(); i++) {
-		const Event& e = l_Events[i];
-		int reminder = 0;
-		if (isT && e.ty == NotificationProblem) {
-			reminder = (hadP && !sawProblem) ? 0 : 1;
-			sawProblem = true;
-		}
-		if (e.passed)
-			expected += (int)e.users.size();
-		if (i) ev += ",";
-		ev += std::to_string(e.ty) + ":" + std::to_string(reminder) + ":" + std::to_string(e.passed) + ":" + JoinIds(e.users);
+	for (size_t k = 0; k < l_W.ns.size(); k++) {
+		NotifW& nw = l_W.ns[k];
+		nw.env = ReadEnv((int)k);
+		nw.users = UsersStr((int)k);
+		nw.hadP = (nw.notif->GetSuppressedNotifications() & NotificationProblem) != 0;
 	}
-	if (l_Events.empty())
-		ev = "-";
+}
 
-	/* group 4: wait for the thread pool to run the commands */
+static void PrintNumbers()
+{
+	/* notification_number is reset by ProcessCheckResult (ResetNotificationNumbers) outside the modelled code: resynchronise */
+	printf("z |");
+	for (auto& nw : l_W.ns)
+		printf(" %d", (int)nw.notif->GetNotificationNumber());
+	printf("\n");
+}
+
+static void FinishObserved(const std::string& opText, int fired, bool isT)
+{
+	/* wait for the thread pool to run the commands announced by the events of all notification objects */
+	int expected = 0;
+	for (auto& nw : l_W.ns)
+		for (auto& e : nw.events)
+			if (e.passed)
+				expected += (int)e.users.size();
 	if (l_CmdCount.load() != expected) {
 		auto t0 = std::chrono::steady_clock::now();
 		while (l_CmdCount.load() != expected) {
@@ -453,71 +520,140 @@ static void FinishObserved(const std::string& opText, const Env& env, int fired,
 			}
 		}
 	}
-	std::vector<std::pair<int, int>> cmds;
+	std::vector<std::vector<std::pair<int, int>>> cmds(l_W.ns.size());
 	{
 		std::unique_lock<std::mutex> lock(l_CmdMutex);
-		for (auto& c : l_Cmds)
-			cmds.emplace_back(c.first, UserId(String(c.second)));
+		for (auto& c : l_Cmds) {
+			auto it = l_W.notifByName.find(c.notif);
+			if (it == l_W.notifByName.end())
+				Die("command executed for unknown notification '" + c.notif + "'", 4);
+			cmds[it->second].emplace_back(c.type, UserId(String(c.user)));
+		}
 		l_Cmds.clear();
 		l_CmdCount.store(0);
 	}
-	std::sort(cmds.begin(), cmds.end());
-	std::string cs;
-	for (size_t i = 0; i < cmds.size(); i++) {
-		if (i) cs += ",";
-		cs += std::to_string(cmds[i].first) + ":" + std::to_string(cmds[i].second);
-	}
-	if (cmds.empty())
-		cs = "-";
 
-	/* group 5: attributes of the notification object */
-	std::vector<int> npu;
-	{
-		Array::Ptr a = l_W.notif->GetNotifiedProblemUsers();
-		ObjectLock olock(a);
-		for (const Value& v : a)
-			npu.push_back(UserId(v));
-	}
-	std::vector<std::pair<int, int>> lns;
-	{
-		Dictionary::Ptr d = l_W.notif->GetLastNotifiedStatePerUser();
-		ObjectLock olock(d);
-		for (const Dictionary::Pair& kv : d)
-			lns.emplace_back(UserId(kv.first), (int)(double)kv.second);
-	}
-	std::sort(lns.begin(), lns.end());
-	std::string ls;
-	for (size_t i = 0; i < lns.size(); i++) {
-		if (i) ls += "+";
-		ls += std::to_string(lns[i].first) + "=" + std::to_string(lns[i].second);
-	}
-	if (lns.empty())
-		ls = "_";
+	for (size_t k = 0; k < l_W.ns.size(); k++) {
+		NotifW& nw = l_W.ns[k];
+		/* group 3: events */
+		std::string ev;
+		bool sawProblem = false;
+		for (size_t i = 0; i < nw.events.size(); i++) {
+			const Event& e = nw.events[i];
+			int reminder = 0;
+			if (isT && e.ty == NotificationProblem && e.force < 0) {
+				/* (a labelled event is the replay of a stashed request, never a reminder) */
+				reminder = (nw.hadP && !sawProblem) ? 0 : 1;
+				sawProblem = true;
+			}
+			/* forced? labelled requests carry it in their text; unlabelled ones are requests the code raised itself and
+			 * processed at once (force_next_notification as read before the call), or the timer's own calls (never forced) */
+			int force = e.force >= 0 ? e.force : (isT ? 0 : (int)nw.env.v[18]);
+			if (i) ev += ",";
+			ev += std::to_string(e.ty) + ":" + std::to_string(reminder) + ":" + std::to_string(e.passed) + ":" + std::to_string(force) + ":" + JoinIds(e.users);
+		}
+		if (nw.events.empty())
+			ev = "-";
 
-	std::string envs;
-	for (int i = 0; i < 19; i++) {
-		envs += std::to_string(env.v[i]);
-		envs += " ";
-	}
-	envs += std::to_string(fired);
+		/* group 4: executed commands */
+		std::sort(cmds[k].begin(), cmds[k].end());
+		std::string cs;
+		for (size_t i = 0; i < cmds[k].size(); i++) {
+			if (i) cs += ",";
+			cs += std::to_string(cmds[k][i].first) + ":" + std::to_string(cmds[k][i].second);
+		}
+		if (cmds[k].empty())
+			cs = "-";
 
-	printf("%s | %s ; %s ; %s ; %s ; %s %s %lld %d %d %d\n", opText.c_str(), envs.c_str(), users.c_str(), ev.c_str(), cs.c_str(),
-		JoinIds(npu).c_str(), ls.c_str(), (long long)l_W.notif->GetNextNotification(), l_W.notif->GetNoMoreNotifications() ? 1 : 0,
-		(int)l_W.notif->GetNotificationNumber(), (int)l_W.notif->GetSuppressedNotifications());
-	l_Events.clear();
+		/* group 5: attributes of the notification object */
+		std::vector<int> npu;
+		{
+			Array::Ptr a = nw.notif->GetNotifiedProblemUsers();
+			ObjectLock olock(a);
+			for (const Value& v : a)
+				npu.push_back(UserId(v));
+		}
+		std::vector<std::pair<int, int>> lns;
+		{
+			Dictionary::Ptr d = nw.notif->GetLastNotifiedStatePerUser();
+			ObjectLock olock(d);
+			for (const Dictionary::Pair& kv : d)
+				lns.emplace_back(UserId(kv.first), (int)(double)kv.second);
+		}
+		std::sort(lns.begin(), lns.end());
+		std::string ls;
+		for (size_t i = 0; i < lns.size(); i++) {
+			if (i) ls += "+";
+			ls += std::to_string(lns[i].first) + "=" + std::to_string(lns[i].second);
+		}
+		if (lns.empty())
+			ls = "_";
+
+		std::string envs;
+		for (int i = 0; i < 19; i++) {
+			envs += std::to_string(nw.env.v[i]);
+			envs += " ";
+		}
+		envs += std::to_string(fired);
+		envs += " " + std::to_string(nw.env.v[19]);
+
+		/* stashed requests (cold start), in order */
+		std::string st;
+		{
+			Array::Ptr a = nw.notif->GetStashedNotifications();
+			ObjectLock olock(a);
+			for (const Value& v : a) {
+				Dictionary::Ptr d = v;
+				if (!st.empty()) st += ",";
+				st += std::to_string((int)(double)d->Get("notification_type")) + ":" + ((bool)d->Get("force") ? "1" : "0");
+			}
+		}
+		if (st.empty())
+			st = "-";
+
+		std::string head = k == 0 ? opText : "+ " + std::to_string(k);
+		printf("%s | %s ; %s ; %s ; %s ; %s %s %lld %d %d %d %s\n", head.c_str(), envs.c_str(), nw.users.c_str(), ev.c_str(), cs.c_str(),
+			JoinIds(npu).c_str(), ls.c_str(), (long long)nw.notif->GetNextNotification(), nw.notif->GetNoMoreNotifications() ? 1 : 0,
+			(int)nw.notif->GetNotificationNumber(), (int)nw.notif->GetSuppressedNotifications(), st.c_str());
+		nw.events.clear();
+	}
+}
+
+/* Every request for the checkable — from an N operation, or raised by the code itself inside ProcessCheckResult /
+ * FireSuppressedNotifications (X / Z operations) — is observed by two slots around the NotificationComponent's own slot. */
+static void RequestPre(const Checkable::Ptr& checkable)
+{
+	if (checkable != l_W.obj)
+		return;
+	BeginOp("before a request");
+	if (l_InX)
+		PrintNumbers();
+	Snapshot();
+}
+
+static void RequestPost(const Checkable::Ptr& checkable, NotificationType type)
+{
+	if (checkable != l_W.obj)
+		return;
+	if (l_InX) {
+		char op[32];
+		snprintf(op, sizeof op, "q %d", (int)type);
+		FinishObserved(op, 1, false);
+	} else {
+		FinishObserved(l_NText, 1, false);
+	}
 }
 
 static void OpNotify(int type, long long dt)
 {
 	l_Now += dt;
 	SetNow((double)l_Now);
-	BeginOp("before N");
-	Env env = ReadEnv();
-	std::string users = UsersStr();
-	Checkable::OnNotificationsRequested(l_W.obj, (NotificationType)type, l_W.obj->GetLastCheckResult(), "a", "t", nullptr);
 	char op[64];
 	snprintf(op, sizeof op, "N %d %lld", type, dt);
-	FinishObserved(op, env, 1, users, false, false);
+	l_NText = op;
+	/* the text travels with the request (also through the stash) to OnNotificationSentToAllUsers: label it with its force flag */
+	String text = l_W.obj->GetForceNextNotification() ? "n:1" : "n:0";
+	Checkable::OnNotificationsRequested(l_W.obj, (NotificationType)type, l_W.obj->GetLastCheckResult(), "a", text, nullptr);
 }
 
 static void OpTick(long long dt, int direct)
@@ -525,9 +661,16 @@ static void OpTick(long long dt, int direct)
 	l_Now += dt;
 	SetNow((double)l_Now);
 	BeginOp("before T");
-	Env env = ReadEnv();
-	std::string users = UsersStr();
-	bool hadP = (l_W.notif->GetSuppressedNotifications() & NotificationProblem) != 0;
+	Snapshot();
+	/* label what is stashed (requests the code raised itself carry no text) so that the events of the replay can be attributed */
+	for (auto& nw : l_W.ns) {
+		Array::Ptr a = nw.notif->GetStashedNotifications();
+		ObjectLock olock(a);
+		for (const Value& v : a) {
+			Dictionary::Ptr d = v;
+			d->Set("text", String((bool)d->Get("force") ? "s:1" : "s:0"));
+		}
+	}
 	int fired = 1;
 	if (direct) {
 		(l_NC.get()->*get(NthTag()))();
@@ -539,7 +682,34 @@ static void OpTick(long long dt, int direct)
 	}
 	char op[64];
 	snprintf(op, sizeof op, "T %lld %d", dt, direct);
-	FinishObserved(op, env, fired, users, true, hadP);
+	FinishObserved(op, fired, true);
+}
+
+/* X: a real check result through Checkable::ProcessCheckResult — the state machine, suppression and flapping logic decide
+ * which notifications are requested; every request shows as a "q" line. */
+static void OpResult(int state, long long dt)
+{
+	l_Now += dt;
+	SetNow((double)l_Now);
+	BeginOp("before X");
+	printf("X %d %lld |\n", state, dt);
+	l_InX = true;
+	l_W.obj->ProcessCheckResult(MakeCr((ServiceState)state, (double)l_Now, (double)l_Now, true));
+	l_InX = false;
+	PrintNumbers();
+}
+
+/* Z: Checkable::FireSuppressedNotifications (what the checkable's own 5 s timer calls). */
+static void OpFireCheckable(long long dt)
+{
+	l_Now += dt;
+	SetNow((double)l_Now);
+	BeginOp("before Z");
+	printf("Z %lld |\n", dt);
+	l_InX = true;
+	l_W.obj->FireSuppressedNotifications();
+	l_InX = false;
+	PrintNumbers();
 }
 
 static void OpState(int state, int hard, int setlhsc)
@@ -626,30 +796,40 @@ static bool ExecLine(const char *line)
 		echo += w[i];
 	}
 
+	/* lines the harness prints itself inside / after an operation: ignored on replay */
+	if (k == "+" || k == "q" || k == "z")
+		return true;
+
+	auto parseNotif = [&](size_t at, NotifCfg& n) -> bool {
+		long long v;
+		if (!ParseLL(w[at], n.interval)) return false;
+		n.hasBegin = w[at + 1] != "-";
+		n.hasEnd = w[at + 2] != "-";
+		n.tbegin = n.tend = 0;
+		if (n.hasBegin && !ParseLL(w[at + 1], n.tbegin)) return false;
+		if (n.hasEnd && !ParseLL(w[at + 2], n.tend)) return false;
+		if (!ParseLL(w[at + 3], v)) return false; n.tf = (int)v;
+		if (!ParseLL(w[at + 4], v)) return false; n.sf = (int)v;
+		if (!ParseLL(w[at + 5], v)) return false; n.hasPeriod = v != 0;
+		return true;
+	};
+
 	if (k == "C") {
 		if (w.size() < 9)
 			return false;
 		CaseCfg c;
-		long long v;
 		if (w[1] != "h" && w[1] != "s") return false;
 		c.kind = w[1][0];
-		if (!ParseLL(w[2], c.interval)) return false;
-		c.hasBegin = w[3] != "-";
-		c.hasEnd = w[4] != "-";
-		c.tbegin = c.tend = 0;
-		if (c.hasBegin && !ParseLL(w[3], c.tbegin)) return false;
-		if (c.hasEnd && !ParseLL(w[4], c.tend)) return false;
-		if (!ParseLL(w[5], v)) return false; c.tf = (int)v;
-		if (!ParseLL(w[6], v)) return false; c.sf = (int)v;
-		if (!ParseLL(w[7], v)) return false; c.hasPeriod = v != 0;
+		if (!parseNotif(2, c.n0)) return false;
 		long long nu;
-		if (!ParseLL(w[8], nu) || nu < 0 || nu > 16) return false;
+		if (!ParseLL(w[8], nu) || nu < 0 || nu > 8) return false;
 		if (w.size() != 9 + 4 * (size_t)nu) return false;
 		for (long long i = 0; i < nu; i++) {
 			long long a, t, s, p;
 			if (!ParseLL(w[9 + 4 * i], a) || !ParseLL(w[10 + 4 * i], t) || !ParseLL(w[11 + 4 * i], s) || !ParseLL(w[12 + 4 * i], p))
 				return false;
-			c.users.push_back(UserCfg{ (int)a, (int)t, (int)s, p != 0 });
+			c.n0.attach.push_back((int)a);
+			c.users.push_back(UserCfg{ (int)t, (int)s, p != 0 });
 		}
 		Setup(c);
 		printf("%s\n", echo.c_str());
@@ -662,9 +842,33 @@ static bool ExecLine(const char *line)
 	long long a = 0, b = 0, c = 0;
 	auto need = [&](size_t n) { return w.size() == n + 1; };
 
+	if (k == "O") {
+		/* a further notification object of the same checkable: O <interval> <tbegin|-> <tend|-> <tf> <sf> <hasPeriod> {<attach>} x nusers */
+		if (w.size() != 7 + l_W.users.size() || l_W.ns.size() >= 4) return false;
+		NotifCfg n;
+		if (!parseNotif(1, n)) return false;
+		for (size_t i = 0; i < l_W.users.size(); i++) {
+			long long v;
+			if (!ParseLL(w[7 + i], v)) return false;
+			n.attach.push_back((int)v);
+		}
+		AddNotification(n);
+		printf("%s\n", echo.c_str());
+		return true;
+	}
 	if (k == "N") {
 		if (!need(2) || !ParseLL(w[1], a) || !ParseLL(w[2], b) || b < 0) return false;
 		OpNotify((int)a, b);
+		return true;
+	}
+	if (k == "X") {
+		if (!need(2) || !ParseLL(w[1], a) || !ParseLL(w[2], b) || a < 0 || a > 3 || b < 0) return false;
+		OpResult((int)a, b);
+		return true;
+	}
+	if (k == "Z") {
+		if (!need(1) || !ParseLL(w[1], a) || a < 0) return false;
+		OpFireCheckable(a);
 		return true;
 	}
 	if (k == "T") {
@@ -682,11 +886,14 @@ static bool ExecLine(const char *line)
 		if (!need(0)) return false;
 		l_W.obj->SetForceNextNotification(true);
 	} else if (k == "W") {
-		if (!need(2) || !ParseLL(w[2], b)) return false;
+		/* W n <v> [k]: period of notification object k (default 0); W <i> <v>: period of user i */
+		if (w.size() < 3 || !ParseLL(w[2], b)) return false;
 		if (w[1] == "n") {
-			if (l_W.period)
-				SetPeriodOpen(l_W.period, b != 0);
+			if (w.size() == 4) { if (!ParseLL(w[3], c)) return false; } else if (w.size() != 3) return false;
+			if (c >= 0 && (size_t)c < l_W.ns.size() && l_W.ns[c].period)
+				SetPeriodOpen(l_W.ns[c].period, b != 0);
 		} else {
+			if (w.size() != 3) return false;
 			if (!ParseLL(w[1], a)) return false;
 			if (a >= 0 && (size_t)a < l_W.users.size() && l_W.users[a].period)
 				SetPeriodOpen(l_W.users[a].period, b != 0);
@@ -695,6 +902,22 @@ static bool ExecLine(const char *line)
 		if (!need(2) || !ParseLL(w[1], a) || !ParseLL(w[2], b)) return false;
 		if (a >= 0 && (size_t)a < l_W.users.size())
 			l_W.users[a].user->SetEnableNotifications(b != 0);
+	} else if (k == "B") {
+		/* B 0: cold start (object authority not updated yet: SendNotifications stashes), B 1: authority updated */
+		if (!need(1) || !ParseLL(w[1], a)) return false;
+		get(UoaTag())->store(a != 0);
+	} else if (k == "M") {
+		if (!need(1) || !ParseLL(w[1], a) || a < 1 || a > 10) return false;
+		l_W.obj->SetMaxCheckAttempts((int)a);
+	} else if (k == "P") {
+		/* P <v> [k]: authority of notification object k (default 0); 0 = paused */
+		if (w.size() < 2 || w.size() > 3 || !ParseLL(w[1], a)) return false;
+		if (w.size() == 3 && !ParseLL(w[2], c)) return false;
+		if (c >= 0 && (size_t)c < l_W.ns.size()) {
+			l_W.ns[c].notif->SetAuthority(a != 0);
+			if (l_W.ns[c].notif->IsPaused() != (a == 0))
+				Die("environment operation '" + echo + "' did not have its effect on the real objects", 4);
+		}
 	} else {
 		if (!need(1) || !ParseLL(w[1], a)) return false;
 		bool on = a != 0;
@@ -707,7 +930,6 @@ static bool ExecLine(const char *line)
 			case 'K': l_W.obj->SetSuppressedNotifications(on ? NotificationProblem : 0); break;
 			case 'G': IcingaApplication::GetInstance()->SetEnableNotifications(on); break;
 			case 'E': l_W.obj->SetEnableNotifications(on); break;
-			case 'P': l_W.notif->SetAuthority(on); break;
 			case 'Y':
 				if (on) {
 					l_W.obj->SetEnableActiveChecks(true);
@@ -720,7 +942,7 @@ static bool ExecLine(const char *line)
 				return false;
 		}
 	}
-	if (!l_Events.empty())
+	if (AnyEvents())
 		Die("environment operation '" + echo + "' emitted a notification event", 4);
 	/* self-check: the operation had the effect on the real objects that the protocol promises */
 	{
@@ -732,10 +954,9 @@ static bool ExecLine(const char *line)
 			case 'L': ok = l_W.obj->IsFlapping() == on; break;
 			case 'R': ok = l_W.obj->IsReachable(DependencyNotification) == on; break;
 			case 'Y': ok = l_W.obj->IsLikelyToBeCheckedSoon() == on; break;
-			case 'P': ok = l_W.notif->IsPaused() == !on; break;
 			case 'W':
-				if (w[1] == "n" && l_W.period)
-					ok = l_W.period->IsInside((double)l_Now) == (w[2] != "0");
+				if (w[1] == "n" && (size_t)c < l_W.ns.size() && l_W.ns[c].period)
+					ok = l_W.ns[c].period->IsInside((double)l_Now) == (w[2] != "0");
 				break;
 			default: break;
 		}
@@ -757,7 +978,10 @@ struct GenState {
 	char kind;
 	int nusers;
 	int curState;
-	int nOpen;       /* what the generator last set: notification period open */
+	int nobj;        /* notification objects of the case */
+	int useX;        /* state changes mostly through the real ProcessCheckResult */
+	int cold;        /* the case starts in the cold-start phase */
+	int nOpen[3];    /* what the generator last set: notification periods open */
 	int uOpen[4];    /* user periods */
 	int uEnabled[4]; /* user enable_notifications */
 };
@@ -774,6 +998,15 @@ static int FlipBiased(Rng& rng, int& cur)
 static void RandomStateOp(Rng& rng, GenState& g, char *buf, size_t n)
 {
 	int st = g.kind == 'h' ? (rng.below(2) ? 2 : 0) : (int)rng.below(4);
+	if (g.useX && rng.below(100) < 85) {
+		/* a real check result; repeat the previous state often so that soft states harden */
+		static const int dts[] = {0, 1, 10, 10, 60, 300};
+		if (rng.below(100) < 45)
+			st = g.curState;
+		g.curState = st;
+		snprintf(buf, n, "X %d %d", st, dts[rng.below(6)]);
+		return;
+	}
 	int hard = rng.below(100) < 85 ? 1 : 0;
 	int rnd = rng.below(10) == 0 ? 1 : 0;
 	int setlhsc = (hard && (st != g.curState || rnd)) ? 1 : 0;
@@ -789,6 +1022,10 @@ static int RevertBiased(Rng& rng, int badValue)
 
 static void RandomOp(Rng& rng, GenState& g, char *buf, size_t n)
 {
+	if (g.cold && rng.below(100) < 12) {
+		snprintf(buf, n, "B %d", rng.below(100) < 75 ? 1 : 0);
+		return;
+	}
 	int k = (int)rng.below(100);
 	if (k < 35) {
 		int r = (int)rng.below(100);
@@ -807,7 +1044,11 @@ static void RandomOp(Rng& rng, GenState& g, char *buf, size_t n)
 		RandomStateOp(rng, g, buf, n);
 	} else if (k < 79) {
 		if (rng.coin()) {
-			snprintf(buf, n, "W n %d", FlipBiased(rng, g.nOpen));
+			int k = (int)rng.below(g.nobj);
+			if (k == 0)
+				snprintf(buf, n, "W n %d", FlipBiased(rng, g.nOpen[0]));
+			else
+				snprintf(buf, n, "W n %d %d", FlipBiased(rng, g.nOpen[k]), k);
 		} else {
 			int i = (int)rng.below(g.nusers);
 			snprintf(buf, n, "W %d %d", i, FlipBiased(rng, g.uOpen[i]));
@@ -827,19 +1068,27 @@ static void RandomOp(Rng& rng, GenState& g, char *buf, size_t n)
 		static const int bad[] = {-1, 0, 0, 0, 1};
 		int i = (int)rng.below(5);
 		int v = bad[i] < 0 ? (int)rng.below(2) : RevertBiased(rng, bad[i]);
-		snprintf(buf, n, "%c %d", ops[i], v);
+		if (ops[i] == 'P' && g.nobj > 1 && rng.coin())
+			snprintf(buf, n, "P %d %d", v, 1 + (int)rng.below(g.nobj - 1));
+		else if (ops[i] == 'Y' && g.useX)
+			snprintf(buf, n, "Z %d", rng.coin() ? 0 : 400); /* the checkable's own suppressed-notification handler */
+		else
+			snprintf(buf, n, "%c %d", ops[i], v);
 	}
 }
 
-static std::string RandomHeader(Rng& rng, GenState& g)
+static int RandomAttach(Rng& rng)
+{
+	/* bit 0 users, bit 1 group a, bit 2 group b; overlapping membership (3, 5, 6, 7) is common */
+	static const int attaches[] = {1, 1, 2, 3, 4, 5, 6, 7};
+	return rng.below(10) == 0 ? 0 : attaches[rng.below(8)];
+}
+
+static std::string RandomNotifCfg(Rng& rng)
 {
 	static const int intervals[] = {0, 0, 1, 60, 60, 300};
 	static const char *const begins[] = {"-", "-", "-", "0", "5", "60"};
 	static const char *const ends[] = {"-", "-", "-", "0", "30", "600"};
-	g.kind = rng.coin() ? 'h' : 's';
-	g.curState = 0;
-	g.nOpen = 1;
-	for (int i = 0; i < 4; i++) { g.uOpen[i] = 1; g.uEnabled[i] = 1; }
 	int interval = intervals[rng.below(6)];
 	const char *tb = begins[rng.below(6)];
 	const char *te = ends[rng.below(6)];
@@ -848,18 +1097,45 @@ static std::string RandomHeader(Rng& rng, GenState& g)
 	else { tf = (int)rng.below(512); if (rng.coin()) tf |= 32; }
 	int sf = rng.coin() ? 63 : (int)rng.below(64);
 	int hasPeriod = rng.coin() ? 1 : 0;
-	g.nusers = 1 + (int)rng.below(4);
 	std::ostringstream s;
-	s << "C " << g.kind << " " << interval << " " << tb << " " << te << " " << tf << " " << sf << " " << hasPeriod << " " << g.nusers;
+	s << interval << " " << tb << " " << te << " " << tf << " " << sf << " " << hasPeriod;
+	return s.str();
+}
+
+/* the case header, followed by the lines that must come right after it (further notification objects, max_check_attempts) */
+static std::vector<std::string> RandomHeader(Rng& rng, GenState& g)
+{
+	g.kind = rng.coin() ? 'h' : 's';
+	g.curState = 0;
+	for (int i = 0; i < 3; i++) g.nOpen[i] = 1;
+	for (int i = 0; i < 4; i++) { g.uOpen[i] = 1; g.uEnabled[i] = 1; }
+	g.nusers = 1 + (int)rng.below(4);
+	int r = (int)rng.below(100);
+	g.nobj = r < 55 ? 1 : (r < 85 ? 2 : 3);
+	g.useX = rng.below(100) < 35 ? 1 : 0;
+	g.cold = rng.below(100) < 15 ? 1 : 0;
+	std::vector<std::string> lines;
+	std::ostringstream s;
+	s << "C " << g.kind << " " << RandomNotifCfg(rng) << " " << g.nusers;
 	for (int i = 0; i < g.nusers; i++) {
-		static const int attaches[] = {1, 1, 2, 3};
-		int attach = rng.below(10) == 0 ? 0 : attaches[rng.below(4)];
 		int utf = rng.below(100) < 40 ? 511 : (int)rng.below(512);
 		int usf = rng.coin() ? 63 : (int)rng.below(64);
 		int up = rng.below(100) < 30 ? 1 : 0;
-		s << " " << attach << " " << utf << " " << usf << " " << up;
+		s << " " << RandomAttach(rng) << " " << utf << " " << usf << " " << up;
 	}
-	return s.str();
+	lines.push_back(s.str());
+	for (int k = 1; k < g.nobj; k++) {
+		std::ostringstream o;
+		o << "O " << RandomNotifCfg(rng);
+		for (int i = 0; i < g.nusers; i++)
+			o << " " << RandomAttach(rng);
+		lines.push_back(o.str());
+	}
+	if (g.useX)
+		lines.push_back("M " + std::to_string(1 + (int)rng.below(3)));
+	if (g.cold)
+		lines.push_back("B 0");
+	return lines;
 }
 
 static void Must(const char *line)
@@ -885,29 +1161,40 @@ int main(int argc, char **argv)
 	cmd->SetExecute(new Function("C03Execute", CmdExecute, { "notification", "user", "cr", "itype", "author", "comment", "resolvedMacros", "useResolvedMacros" }));
 	cmd->Register();
 
-	/* signals: events of the current case's notification, in emission order */
+	/* signals: events of the current case's notification objects, in emission order */
 	Notification::OnLastNotifiedStatePerUserCleared.connect([](const Notification::Ptr& n, const MessageOrigin::Ptr&) {
-		if (n != l_W.notif)
+		auto it = l_W.notifByName.find(n->GetName().GetData());
+		if (it == l_W.notifByName.end() || l_W.ns[it->second].notif != n)
 			return;
-		l_Events.push_back(Event{ NotificationRecovery, 0, true, {} });
+		l_W.ns[it->second].events.push_back(Event{ NotificationRecovery, 0, true, {}, -1 });
 	});
 	Checkable::OnNotificationSentToAllUsers.connect([](const Notification::Ptr& n, const Checkable::Ptr&, const std::set<User::Ptr>& users,
-		const NotificationType& type, const CheckResult::Ptr&, const String&, const String&, const MessageOrigin::Ptr&) {
-		if (n != l_W.notif)
+		const NotificationType& type, const CheckResult::Ptr&, const String&, const String& text, const MessageOrigin::Ptr&) {
+		int force = -1;
+		if (text.GetLength() == 3 && (text.GetData()[0] == 'n' || text.GetData()[0] == 's') && text.GetData()[1] == ':')
+			force = text.GetData()[2] == '1' ? 1 : 0;
+		auto it = l_W.notifByName.find(n->GetName().GetData());
+		if (it == l_W.notifByName.end() || l_W.ns[it->second].notif != n)
 			return;
+		std::vector<Event>& evs = l_W.ns[it->second].events;
 		std::vector<int> ids;
 		for (const User::Ptr& u : users)
 			ids.push_back(UserId(u->GetName()));
 		std::sort(ids.begin(), ids.end());
-		if (type == NotificationRecovery && !l_Events.empty() && l_Events.back().clearedPending) {
-			Event& e = l_Events.back();
+		if (type == NotificationRecovery && !evs.empty() && evs.back().clearedPending) {
+			Event& e = evs.back();
 			e.passed = 1;
 			e.clearedPending = false;
 			e.users = ids;
+			e.force = force;
 		} else {
-			l_Events.push_back(Event{ (int)type, 1, false, ids });
+			evs.push_back(Event{ (int)type, 1, false, ids, force });
 		}
 	});
+
+	/* first slot of OnNotificationsRequested: snapshot what SendNotifications is about to read */
+	Checkable::OnNotificationsRequested.connect([](const Checkable::Ptr& checkable, NotificationType, const CheckResult::Ptr&,
+		const String&, const String&, const MessageOrigin::Ptr&) { RequestPre(checkable); });
 
 	/* the real component: its Start() connects OnNotificationsRequested -> SendNotifications and creates the 5 s timer */
 	l_NC = new NotificationComponent();
@@ -916,6 +1203,10 @@ int main(int argc, char **argv)
 	l_NC->PreActivate();
 	l_NC->Activate();
 	l_NC->SetAuthority(true);
+
+	/* last slot of OnNotificationsRequested (after the component's): print the observation of the request */
+	Checkable::OnNotificationsRequested.connect([](const Checkable::Ptr& checkable, NotificationType type, const CheckResult::Ptr&,
+		const String&, const String&, const MessageOrigin::Ptr&) { RequestPost(checkable, type); });
 
 	std::string mode = argv[1];
 	if (mode == "gen") {
@@ -931,6 +1222,8 @@ int main(int argc, char **argv)
 			char hdr[128];
 			snprintf(hdr, sizeof hdr, "C %c %d - - 511 63 1 2 1 511 63 0 1 %d 63 1", kind ? 'h' : 's', iv ? 60 : 0, kind ? 511 : 80);
 			Must(hdr);
+			if (kind)
+				Must(iv ? "O 0 - - 96 63 1 3 2" : "O 60 - - 96 63 1 3 2"); /* second object: Problem|Recovery only, own period, other interval */
 			Must("S 2 1 1");
 			long c = code;
 			for (int i = 0; i < L; i++) { Must(kAlphabet[c % kAlphabetN]); c /= kAlphabetN; }
@@ -945,8 +1238,8 @@ int main(int argc, char **argv)
 		int maxLen = thorough ? 60 : 30;
 		for (int i = 0; i < n; i++) {
 			GenState g;
-			std::string hdr = RandomHeader(rng, g);
-			Must(hdr.c_str());
+			for (const std::string& hl : RandomHeader(rng, g))
+				Must(hl.c_str());
 			int len = 1 + (int)rng.below(maxLen);
 			for (int j = 0; j < len; j++) {
 				char buf[64];
